@@ -10,6 +10,7 @@
 import math
 import os
 import sys
+import warnings
 
 import numpy as np
 
@@ -191,6 +192,51 @@ def main():
                 if bad:
                     h.violation(f"level0:{mode}", f"{nm} system ({mode}): {bad}", input={"system": nm, "mode": mode}, observed=bad)
                 h.case(("level0", mode, nm))
+    # the grid a SAMPLER is handed: `sample_layer` in one coordinate system and then in the other, in one process (whatever the
+    # sampling machinery retains between runs must not carry a grid from one system into the other); level 1 and the level-0 tile
+    import shutil
+    import tempfile
+    from toasty.pyramid import PyramidIO
+    sroot = tempfile.mkdtemp(prefix="vfc05_")
+    try:
+        order = systems if rng.random() < 0.5 else systems[::-1]
+        for depth in (1, 0):
+            for nm, cs in order:
+                grids = {}
+                for which in ("lon", "lat"):
+                    base = os.path.join(sroot, f"{nm}{depth}{which}")
+                    pio = PyramidIO(base, default_format="npy")
+                    with warnings.catch_warnings():
+                        warnings.simplefilter("ignore")
+                        toast.sample_layer(pio, (lambda lon, lat, which=which: np.array(lon if which == "lon" else lat, dtype=np.float64)), depth, coordsys=cs, parallel=1)
+                    for x in range(2 ** depth):
+                        for y in range(2 ** depth):
+                            pth = pio.tile_path(Pos(depth, x, y), makedirs=False)
+                            grids.setdefault((x, y), {})[which] = np.load(pth) if os.path.exists(pth) else None
+                bad = None
+                for (x, y), g in grids.items():
+                    if g.get("lon") is None or g.get("lat") is None:
+                        bad = f"tile ({depth},{x},{y}) was not written"
+                        break
+                    for (i, j) in [(0, 0), (255, 255), (0, 255), (128, 127)] + [(rng.randrange(256), rng.randrange(256)) for _ in range(12)]:
+                        deep = toast.create_single_tile(Pos(depth + 8, 256 * x + j, 256 * y + i), coordsys=cs)
+                        d = angdist((float(g["lon"][i, j]), float(g["lat"][i, j])), centre(deep))
+                        if d > 1e-10:
+                            bad = (f"the sampler filling tile ({depth},{x},{y}) was handed, for pixel (row {i}, column {j}), a point {d:.3g} rad from the centre of "
+                                   f"tile ({depth + 8},{256 * x + j},{256 * y + i})")
+                            break
+                    if bad:
+                        break
+                h.case(("sampler-grid", nm, depth))
+                h.count("sampler-grid", f"{nm}{depth}")
+                if bad:
+                    h.violation("sampler-grid", f"{nm} system, sample_layer at depth {depth} (after {[o[0] for o in order]} in this order, depths 1 then 0): {bad}",
+                                input={"system": nm, "depth": depth, "order": [o[0] for o in order]}, observed=bad)
+    except Exception as e:
+        import traceback
+        h.violation("sampler-grid:crash", f"sample_layer with a recording sampler raised {type(e).__name__}: {e}", input="sampler-grid", observed=traceback.format_exc()[-500:])
+    finally:
+        shutil.rmtree(sroot, ignore_errors=True)
     # compiled extension vs the .pyx text
     from toasty import _libtoasty
     worst = 0.0
